@@ -180,9 +180,15 @@ def run(chk):
         pr = None
     okp = pr is not None and len(pr) == 3 and pr[0] == ("const", 0) and pr[1][0] == "arr" and "where-index" in pr[1][1] and \
         pr[2] == ("sym", repr(LinExpr("n") - 1))
+    # located wrong: a first piece that is a constant other than 0, a last piece that is a symbolic index other than len - 1; pieces whose content
+    # is not known (arrays built by a helper) are not located
+    located_wrong = pr is not None and len(pr) == 3 and ((pr[0][0] == "const" and pr[0] != ("const", 0)) or
+                                                         (pr[2][0] in ("sym", "const") and pr[2] != ("sym", repr(LinExpr("n") - 1))))
     chk.ob("R-IDX", cd + "{ends}", "the result is index 0, the turning points, index len(values)-1, in that order (np.insert or np.concatenate)", okp,
-           derived="pieces %s" % ([(x[0], x[1] if x[0] != "arr" else "...") for x in pr] if pr else None), loc=r.fi.loc(), inconclusive=pr is None)
-    cm = [e for e in r.events("compare", q)]
+           derived="pieces %s" % ([(x[0], x[1] if x[0] != "arr" else "...") for x in pr] if pr else None), loc=r.fi.loc(),
+           inconclusive=pr is None or (not okp and not located_wrong))
+    cm = [e for e in r.events("compare", q) if ("diff" in e.left.tags or "diff" in e.right.tags) and
+          (alg_degree(e.left.a(R)) not in (Exp(0), "any") or alg_degree(e.right.a(R)) not in (Exp(0), "any"))]       # (tests of shapes / counts are not the turning test)
     chk.ob("R-IDX", cd + "{turning test}", "a turning point is a strictly negative product of successive differences",
            len(cm) == 1 and cm[0].op == "Lt" and cm[0].right.has_const() and cm[0].right.const == 0 and alg_degree(cm[0].left.a(R)) == Exp(2) and
            "diff" in cm[0].left.tags, derived="%s" % [(e.op, alg_str(e.left.a(R))) for e in cm], loc=cm[0].loc if cm else r.fi.loc(), inconclusive=not cm)
